@@ -1,6 +1,6 @@
 (* C13 (part 2) -- the adjoint of a rigid motion, the velocity Jacobian, the little adjoint.
    Statements are fixed; every tr_* definition is regenerated from /repo on each run (base.adjoint, base.tr2jac,
-   base.trinv, SE3.Ad, SE3.__mul__, SE3.inv, Twist3.ad, Twist3.se3, base.delta2tr executed on symbols). *)
+   base.trinv, SE3.Ad, SE3.jacob, SE3.__mul__, SE3.inv, Twist3.ad, Twist3.se3, base.delta2tr executed on symbols). *)
 From Coq Require Import Reals ZArith Lra Psatz Nsatz.
 From SM Require Import Base.Ops Base.Lin Base.RInst Base.RLin.
 From SMgen Require Import Traces_C13.
@@ -121,6 +121,25 @@ Theorem C13_tr2jac_samebody_structure : forall X : M44 R,
   tr_tr2jac_sb Rops X = block66 (mtr33 (t2r3 X)) (mtr33 (mmul33 Rops (skew3 Rops (transl3 X)) (t2r3 X))) (Z33 Rops) (mtr33 (t2r3 X)).
 Proof. gen_ring. Qed.
 Print Assumptions C13_tr2jac_samebody_structure.
+
+(* ---------- adjoint of a pure rotation and SE3.jacob (both raised NameError before the repairs 892f8ec / 5493c9a
+   in /repo; now traced like everything else, for every argument) ---------- *)
+Theorem C13_adjoint3_full : forall Rm : M33 R,
+  tr_adjoint3 Rops Rm = block66 Rm (Z33 Rops) (Z33 Rops) Rm.
+Proof. gen_ring. Qed.
+Print Assumptions C13_adjoint3_full.
+
+(* ... which is the adjoint of the rigid motion with that rotation and no translation *)
+Theorem C13_adjoint3_is_Ad_of_rotation : forall Rm : M33 R,
+  tr_adjoint3 Rops Rm = tr_adjoint Rops (rt2tr3 Rops Rm (0,0,0)).
+Proof. gen_ring. Qed.
+Print Assumptions C13_adjoint3_is_Ad_of_rotation.
+
+Theorem C13_SE3_jacob_full : forall X : M44 R,
+  tr_SE3_jacob Rops X = tr_tr2jac Rops X /\
+  tr_SE3_jacob Rops X = block66 (mtr33 (t2r3 X)) (Z33 Rops) (Z33 Rops) (mtr33 (t2r3 X)).
+Proof. intros; split; gen_ring. Qed.
+Print Assumptions C13_SE3_jacob_full.
 
 (* ---------- the little adjoint ad(S) = [[skew w, skew v],[0, skew w]] and what it means ---------- *)
 Theorem C13_ad_structure : forall s : V6 R,
